@@ -119,6 +119,9 @@ func docOracles(doc JV) (rfc string, letters string, digits string) {
 		}
 		if (key == "ts" || key == "timestamp") && !seenT[v.S] {
 			seenT[v.S] = true
+			if _, err := strconv.ParseInt(v.S, 10, 64); err == nil {
+				return // time.Parse(RFC3339) fails on every decimal integer: an absent row means exactly that (tab_lookup = None)
+			}
 			o := "None"
 			if t, err := time.Parse(time.RFC3339, v.S); err == nil {
 				o = "(Some " + cz(t.UTC().UnixNano()) + ")"
